@@ -35,6 +35,7 @@ type V struct {
 	Fn     *Closure
 	Seq    *Seq
 	Typ    types.Type // static Go type when known (nil in contracts for literals)
+	Box    *V         // for the data word of an interface built from a non-pointer value: the boxed value
 }
 
 type Seq struct {
